@@ -14,6 +14,7 @@ OUTSIDE = ['cancellation inside tonic/h2/tower; the streaming-pull generator; dr
            'that an enqueued request is handled to completion by the actor rests on A1 and on C16.b']
 ASSUMPTIONS = ['a saturated mailbox is the Pending answer of the modelled mpsc send; dropping the caller future at a Pending return has no effect of its own']
 
+PENDING_BUDGET = 2
 MUT = ('enqueue', 'spawn', 'map-mutate', 'joinset.spawn', 'oneshot.send', 'registry.set')
 
 
@@ -60,7 +61,7 @@ class Wrapper(Obligation):
         coro = run_to_end(ip.call_fn(fn, args))
         p.allow_closed = True
         susp = []
-        res, k = run_async(ip, p, coro, budget=2, on_suspend=lambda i, log: susp.append(mutating(log)))
+        res, k = run_async(ip, p, coro, budget=PENDING_BUDGET, on_suspend=lambda i, log: susp.append(mutating(log)))
         return {'susp': susp, 'res': res, 'log': list(p.log), 'k': k}
 
     def post(self, ip, p, res):
@@ -120,7 +121,7 @@ class CreateSubscription(Obligation):
         coro = run_to_end(ip.call_fn(fn, [Ref(Loc(Cell(mgr))), info, ArcTok(topic_tok, 'Topic')]))
         p.allow_closed = True
         susp = []
-        res, k = run_async(ip, p, coro, budget=2, on_suspend=lambda i, log: susp.append(list(log)))
+        res, k = run_async(ip, p, coro, budget=PENDING_BUDGET, on_suspend=lambda i, log: susp.append(list(log)))
         same_project = U['topic_proj'](topic_tok) == nproj
         exists = z3.And(eu, U['sub_proj'](et) == nproj, U['sub_id'](et) == nid)
         return {'susp': susp, 'res': res, 'log': list(p.log), 'k': k, 'same_project': same_project, 'exists': exists,
@@ -178,6 +179,8 @@ def _no_args(ctx, p):
 
 def obligations(ctx, cfg):
     install_tokens(ctx)
+    global PENDING_BUDGET
+    PENDING_BUDGET = 2 if cfg['tier'] == 'quick' else 3
     mk_ids = lambda ctx_, p: [Seq([ack_id(ctx_, p.fresh('id'))], 1, 'vec')]
     mk_mods = lambda ctx_, p: [Seq([mk(ctx_, 'DeadlineModification', ack_id=ack_id(ctx_, p.fresh('id')), new_deadline=Enum('Option', 0, {}))], 1, 'vec')]
     mk_msgs = lambda ctx_, p: [Seq([ArcTok(p.fresh('m'), 'TopicMessage')], 1, 'vec')]
